@@ -29,6 +29,7 @@ Hi == IF atoi(IOEnv.VERIF_HI) > Len(Rec) THEN Len(Rec) ELSE atoi(IOEnv.VERIF_HI)
 HTCap == atoi(IOEnv.VERIF_HTCAP)    \* atoms enumerated exhaustively for HT checks (3^n pairs)
 CLCap == atoi(IOEnv.VERIF_CLCAP)    \* atoms enumerated exhaustively for classical checks (2^n)
 Rot == atoi(IOEnv.VERIF_SEED)       \* rotates which atoms form the exhaustive core
+FullHT == IOEnv.VERIF_FULLHT = "1"  \* C03: enumerate all 4^n pairs of extents (else all 3^n subset pairs and a sample of the others)
 Prop == IOEnv.VERIF_PROP            \* the property being decided (selects the checks evaluated)
 
 VARIABLE st
@@ -388,8 +389,216 @@ EvalCompletable(r) ==
                 IF DefinedOnce(r.completion, tpreds, inputs) THEN OkT
                 ELSE BadT([note |-> "a non-input predicate lacks its completed definition (or has several)"]), "")>>
 
+\* ---------------------------------------------------------------- kind "strong": C03 (and the strong half of C19)
+\* An interpretation of the h-/t-copies is a pair (H, T) of arbitrary sets of base atoms (H need not be below T).
+\* A family (the problems emitted under one flag combination) is refuted forward by (H, T) iff some forward
+\* problem has all axioms true and its conjecture false.  C03: that happens exactly when H \subseteq T and
+\* (H, T) is an HT-model of the left program but not of the right one.  C19: all families agree.
+BaseAtomsOf(preds) == UNION {{<<preds[k].p, tp>> : tp \in ArgTuples(preds[k].n)} : k \in DOMAIN preds}
+Min3(a, b) == IF a < b THEN a ELSE b
+Max3(a, b) == IF a > b THEN a ELSE b
+IsFwd(name) == SubSeq(name, 1, 7) = "forward"
+\* distinct formulas of all families, grounded once
+AllFormulas(fams) == UNION {UNION {{pr.formulas[k].f : k \in DOMAIN pr.formulas} : pr \in Range(fm.problems)} : fm \in Range(fams)}
+StrongEval(r, fams, gL, gR) ==
+  LET base == BaseAtomsOf(r.preds)
+      nb == TLCEval(Numbering(base))
+      df == TLCEval(SetToSeq(AllFormulas(fams)))
+      \* atoms as integers: base atom k is k in the reference groundings; its h-copy is k, its t-copy nb.n + k in the problems
+      ixb == TLCEval(Indexer(base, nb))
+      ixp == TLCEval([a \in PrefixAtoms(base, "h") \cup PrefixAtoms(base, "t") |->
+                        LET k == CHOOSE j \in 1..nb.n : nb.at[j][2] = a[2] /\ (a[1] = "h" \o nb.at[j][1] \/ a[1] = "t" \o nb.at[j][1])
+                                                         /\ Len(a[1]) = Len(nb.at[j][1]) + 1
+                        IN IF a[1] = "h" \o nb.at[k][1] THEN k ELSE nb.n + k])
+      known(g) == PAtoms(g) \subseteq DOMAIN ixp
+      gs == TLCEval([k \in DOMAIN df |-> LET g == Ground(df[k], EmptyEnv) IN IF known(g) THEN IndexTree(g, ixp) ELSE UU])
+      gLi == TLCEval(IndexTree(gL, ixb))
+      gRi == TLCEval(IndexTree(gR, ixb))
+      ixf(f) == CHOOSE k \in DOMAIN df : df[k] = f
+      \* per family, per problem: direction, indices of axioms, indices of conjectures
+      shape == TLCEval([i \in DOMAIN fams |->
+                 [j \in DOMAIN fams[i].problems |->
+                    LET pr == fams[i].problems[j] IN
+                    [fwd |-> IsFwd(pr.name),
+                     ax |-> {ixf(pr.formulas[k].f) : k \in {m \in DOMAIN pr.formulas : ~pr.formulas[m].conj}},
+                     cj |-> {ixf(pr.formulas[k].f) : k \in {m \in DOMAIN pr.formulas : pr.formulas[m].conj}}]]])
+      core == 1..(IF nb.n <= HTCap THEN nb.n ELSE HTCap)
+      hasDir(i, fwd) == \E j \in DOMAIN shape[i] : shape[i][j].fwd = fwd
+      \* value (0 / 1 / 2) of "family i is refuted in direction fwd" given the formula values fv
+      FamVal(i, fwd, fv) ==
+        LET ProbVal(pb) == Min3(FoldSet(LAMBDA k, acc : Min3(acc, fv[k]), 2, pb.ax), 2 - FoldSet(LAMBDA k, acc : Min3(acc, fv[k]), 2, pb.cj))
+        IN FoldSet(LAMBDA j, acc : IF shape[i][j].fwd = fwd THEN Max3(acc, ProbVal(shape[i][j])) ELSE acc, 0, DOMAIN shape[i])
+      \* tallies: one per (family, direction) for C03, one per direction for C19
+      keys == {<<i, d>> : i \in DOMAIN fams, d \in BOOLEAN}
+      live == TLCEval({ky \in keys : hasDir(ky[1], ky[2])})
+      Step(acc, Hc, Tc) ==
+        LET I == Hc \cup {nb.n + k : k \in Tc}
+            fv == TLCEval([k \in DOMAIN gs |-> PCI(gs[k], I)])
+            sub == Hc \subseteq Tc
+            hl == IF sub THEN PS2(gLi, Hc, Tc) \div 3 ELSE 0
+            hr == IF sub THEN PS2(gRi, Hc, Tc) \div 3 ELSE 0
+            oracle(d) == IF ~sub THEN 0 ELSE IF d THEN Min3(hl, 2 - hr) ELSE Min3(hr, 2 - hl)
+            vals == TLCEval([ky \in live |-> FamVal(ky[1], ky[2], fv)])
+            w == [Ih |-> Hc, It |-> Tc]
+            c19(d) == LET def == {vals[ky] : ky \in {x \in live : x[2] = d}} \ {1}
+                      IN IF def = {} THEN <<1, 1>> ELSE IF def = {0, 2} THEN <<2, 0>> ELSE <<CHOOSE x \in def : TRUE, CHOOSE x \in def : TRUE>>
+        IN [fam |-> [ky \in keys |-> IF ky \in live THEN TallyE(acc.fam[ky], vals[ky], oracle(ky[2]), w) ELSE acc.fam[ky]],
+            c19 |-> [d \in BOOLEAN |-> TallyE(acc.c19[d], c19(d)[1], c19(d)[2], w)]]
+      zero == [fam |-> [ky \in keys |-> ZeroE], c19 |-> [d \in BOOLEAN |-> ZeroE]]
+      \* all pairs with H below T; of the others either all (thorough) or those where a single atom is here but not there
+      below == {<<Hc, Tc>> : Hc \in SUBSET core, Tc \in SUBSET core}
+      pairs == IF FullHT THEN below
+               ELSE {pr \in below : pr[1] \subseteq pr[2]}
+                    \cup UNION {{<<Tc \cup {k}, Tc>>, <<{k}, Tc>>} : k \in core, Tc \in SUBSET core}
+      res == FoldSet(LAMBDA pr, a1 : Step(a1, pr[1], pr[2]), zero, pairs)
+      Fin(e, what1, what2) ==
+        [n |-> e.n, unk |-> e.unk, t |-> e.t, f |-> e.f, dis |-> e.d1 + e.d2,
+         wit |-> IF e.d1 > 0 THEN [Ih |-> UnIndex(e.w1.Ih, nb), It |-> UnIndex(e.w1.It, nb), anthem |-> what1, reference |-> what2]
+                 ELSE IF e.d2 > 0 THEN [Ih |-> UnIndex(e.w2.Ih, nb), It |-> UnIndex(e.w2.It, nb), anthem |-> what2, reference |-> what1] ELSE <<>>,
+         groups |-> 1, ident |-> 0, atoms |-> nb.n]
+      DirName(d) == IF d THEN "forward" ELSE "backward"
+      famOuts == [i \in DOMAIN fams |->
+                    (IF hasDir(i, TRUE) THEN <<Out(r, "C03.forward_refuted_iff_left_not_right",
+                                                   Fin(res.fam[<<i, TRUE>>], "a forward problem is refuted", "not (H below T, HT-model of left, not of right)"),
+                                                   ToString(fams[i].flags))>> ELSE <<>>)
+                    \o (IF hasDir(i, FALSE) THEN <<Out(r, "C03.backward_refuted_iff_right_not_left",
+                                                       Fin(res.fam[<<i, FALSE>>], "a backward problem is refuted", "not (H below T, HT-model of right, not of left)"),
+                                                       ToString(fams[i].flags))>> ELSE <<>>)]
+  IN FlattenSeq(famOuts)
+     \o <<Out(r, "C19.strong_families_agree_forward", Fin(res.c19[TRUE], "refuted in one family", "not refuted in another"), ""),
+          Out(r, "C19.strong_families_agree_backward", Fin(res.c19[FALSE], "refuted in one family", "not refuted in another"), "")>>
+EvalStrong(r) ==
+  LET fams == SelectSeq(r.families, LAMBDA fm : "problems" \in DOMAIN fm)
+  IN IF fams = <<>> THEN <<Skip(r, "C03.forward_refuted_iff_left_not_right", "no family")>>
+     ELSE StrongEval(r, fams, ProgramGround(r.left), ProgramGround(r.right))
+
+\* ---------------------------------------------------------------- kind "external": C02 (and the external half of C19)
+\* J ranges over the classical interpretations of all predicates of the task (public, left-private, renamed
+\* right-private) over the base, ph over the placeholder valuations.  A family is refuted forward by (J, ph) iff
+\* some forward problem has all axioms true and its conjecture false.  C02:  that happens exactly when
+\*    the user-guide assumptions hold, the left side admits J (a stable model of the left program with J's input
+\*    facts; or, for a specification, its universal/forward assumptions and specs hold), J's right-private part is
+\*    the one the right program determines, and J (right vocabulary) is NOT a stable model of the right program;
+\* and symmetrically backward.  Stable models and "determined private part" are computed from the reference
+\* grounding of the RULES (MiniGringo.tla), never from any completion.
+PredsOf(ps) == {<<ps[k].p, ps[k].n>> : k \in DOMAIN ps}
+AtomPred(a) == <<a[1], Len(a[2])>>
+AtomsOver(S) == UNION {{<<pr[1], tp>> : tp \in ArgTuples(pr[2])} : pr \in S}
+IsPrivHead(rule, priv) == rule.head.k # "falsity" /\ <<rule.head.a.p, Len(rule.head.a.args)>> \in priv
+AndSeq3(vals) == IF 0 \in vals THEN 0 ELSE IF 1 \in vals THEN 1 ELSE 2
+PhValues(sort) == IF sort = "i" THEN {CInt(n) : n \in P.lo..P.hi} ELSE BaseValues
+RECURSIVE PhAssignments(_)
+PhAssignments(phs) ==   \* set of sequences of values, one per placeholder
+  IF phs = <<>> THEN {<<>>} ELSE {<<v>> \o rest : v \in PhValues(Head(phs).s), rest \in PhAssignments(Tail(phs))}
+
+ExternalEval(r, fams) ==
+  LET pub == PredsOf(r.inputs) \cup PredsOf(r.outputs)
+      inp == PredsOf(r.inputs)
+      lpriv == PredsOf(r.lpreds) \ pub
+      rpriv == PredsOf(r.rpreds) \ pub
+      clash == lpriv \cap rpriv
+      Ren(q) == IF q \in clash THEN <<q[1] \o "_p", q[2]>> ELSE q
+      rprivRen == {Ren(q) : q \in rpriv}
+      allAtoms == AtomsOver(pub \cup lpriv \cup rprivRen)
+      nb == TLCEval(Numbering(allAtoms))
+      ix == TLCEval(Indexer(allAtoms, nb))
+      \* atoms of the right program are read through the renaming: aux(v) of the program is aux_p(v) of the interpretation
+      ixR == TLCEval([a \in AtomsOver(pub \cup rpriv) |-> ix[<<Ren(AtomPred(a))[1], a[2]>>]])
+      \* "on that side's vocabulary": the predicates occurring on that side plus the inputs (a public predicate that a
+      \* side does not mention is left unconstrained by that side: anthem emits no definition for it, see DESIGN 7.0)
+      leftIdx == TLCEval({k \in 1..nb.n : AtomPred(nb.at[k]) \in PredsOf(r.lpreds) \cup inp})
+      rightIdx == TLCEval({k \in 1..nb.n : AtomPred(nb.at[k]) \in {Ren(q) : q \in PredsOf(r.rpreds)} \cup inp})
+      inputIdx == TLCEval({k \in 1..nb.n : AtomPred(nb.at[k]) \in inp})
+      lprivIdx == TLCEval({k \in 1..nb.n : AtomPred(nb.at[k]) \in lpriv})
+      rprivIdx == TLCEval({ixR[a] : a \in AtomsOver(rpriv)})
+      IdxL(g) == IF PAtoms(g) \subseteq DOMAIN ix THEN IndexTree(g, ix) ELSE UU
+      IdxR(g) == IF PAtoms(g) \subseteq DOMAIN ixR THEN IndexTree(g, ixR) ELSE UU
+      core == 1..(IF nb.n <= CLCap THEN nb.n ELSE CLCap)
+      df == TLCEval(SetToSeq(AllFormulas(fams)))
+      ixf(f) == CHOOSE k \in DOMAIN df : df[k] = f
+      shape == TLCEval([i \in DOMAIN fams |->
+                 [j \in DOMAIN fams[i].problems |->
+                    LET pr == fams[i].problems[j] IN
+                    [fwd |-> IsFwd(pr.name),
+                     ax |-> {ixf(pr.formulas[k].f) : k \in {m \in DOMAIN pr.formulas : ~pr.formulas[m].conj}},
+                     cj |-> {ixf(pr.formulas[k].f) : k \in {m \in DOMAIN pr.formulas : pr.formulas[m].conj}}]]])
+      hasDir(i, fwd) == \E j \in DOMAIN shape[i] : shape[i][j].fwd = fwd
+      keys == {<<i, d>> : i \in DOMAIN fams, d \in BOOLEAN}
+      live == TLCEval({ky \in keys : hasDir(ky[1], ky[2])})
+      FamVal(i, fwd, fv) ==
+        LET ProbVal(pb) == Min3(FoldSet(LAMBDA k, acc : Min3(acc, fv[k]), 2, pb.ax), 2 - FoldSet(LAMBDA k, acc : Min3(acc, fv[k]), 2, pb.cj))
+        IN FoldSet(LAMBDA j, acc : IF shape[i][j].fwd = fwd THEN Max3(acc, ProbVal(shape[i][j])) ELSE acc, 0, DOMAIN shape[i])
+      ugForms == SelectSeq(r.ug, LAMBDA e : e.k = "formula" /\ e.a.role = "assumption")
+      specIdx(role, dirs) == IF r.left_is_program THEN {} ELSE {m \in DOMAIN r.left : r.left[m].role = role /\ r.left[m].dir \in dirs}
+      sAF == TLCEval(specIdx("assumption", {"universal", "forward"}))
+      sAU == TLCEval(specIdx("assumption", {"universal"}))
+      sSF == TLCEval(specIdx("spec", {"universal", "forward"}))
+      sSB == TLCEval(specIdx("spec", {"universal", "backward"}))
+      \* everything that depends on the placeholder valuation but not on the interpretation
+      Prepared(pv) ==
+        LET envF == [key \in {<<r.placeholders[k].c, "ph">> : k \in DOMAIN r.placeholders}
+                              \cup {<<r.placeholders[k].c, "f" \o r.placeholders[k].s>> : k \in DOMAIN r.placeholders} |->
+                        pv[CHOOSE k \in DOMAIN r.placeholders : r.placeholders[k].c = key[1]]]
+            sgP == [key \in {"#" \o r.placeholders[k].c : k \in DOMAIN r.placeholders} |->
+                        pv[CHOOSE k \in DOMAIN r.placeholders : "#" \o r.placeholders[k].c = key]]
+        IN [gs |-> TLCEval([k \in DOMAIN df |-> IdxL(Ground(df[k], envF))]),
+            assm |-> TLCEval([k \in DOMAIN ugForms |-> IdxL(Ground(ugForms[k].a.f, envF))]),
+            gR |-> IdxR(ProgramGroundPh(r.right, sgP)),
+            gRP |-> IdxR(ProgramGroundPh(SelectSeq(r.right, LAMBDA x : IsPrivHead(x, rpriv)), sgP)),
+            suppR |-> TLCEval([a \in AtomsOver(rpriv) |-> [at |-> ixR[a], g |-> IdxR(Supp(r.right, a, sgP))]]),
+            gL |-> IF r.left_is_program THEN IdxL(ProgramGroundPh(r.left, sgP)) ELSE TT,
+            gLP |-> IF r.left_is_program THEN IdxL(ProgramGroundPh(SelectSeq(r.left, LAMBDA x : IsPrivHead(x, lpriv)), sgP)) ELSE TT,
+            suppL |-> IF r.left_is_program THEN TLCEval([a \in AtomsOver(lpriv) |-> [at |-> ix[a], g |-> IdxL(Supp(r.left, a, sgP))]]) ELSE <<>>,
+            spec |-> IF r.left_is_program THEN <<>> ELSE TLCEval([k \in DOMAIN r.left |-> IdxL(Ground(r.left[k].f, envF))])]
+      \* every private atom is in J iff it is supported
+      PrivOk(supp, J) == AndSeq3({IF supp[a].at \in J THEN PCI(supp[a].g, J) ELSE 2 - PCI(supp[a].g, J) : a \in DOMAIN supp})
+      Step(acc, pre, J, pv) ==
+        LET JL == J \cap leftIdx
+            JR == J \cap rightIdx
+            assm == AndSeq3({PCI(pre.assm[k], J) : k \in DOMAIN pre.assm})
+            sr == StableIdx(pre.gR, JR, inputIdx)
+            pr == Min3(PCI(pre.gRP, JR), PrivOk(pre.suppR, JR))
+            sl == IF r.left_is_program THEN StableIdx(pre.gL, JL, inputIdx) ELSE 1
+            pl == IF r.left_is_program THEN Min3(PCI(pre.gLP, JL), PrivOk(pre.suppL, JL)) ELSE 2
+            SpecVal(S) == AndSeq3({PCI(pre.spec[k], J) : k \in S})
+            oracleF == IF r.left_is_program THEN Min3(Min3(assm, sl), Min3(pr, 2 - sr))
+                       ELSE Min3(Min3(assm, Min3(SpecVal(sAF), SpecVal(sSF))), Min3(pr, 2 - sr))
+            oracleB == IF r.left_is_program THEN Min3(Min3(assm, sr), Min3(pl, 2 - sl))
+                       ELSE Min3(Min3(assm, SpecVal(sAU)), Min3(sr, 2 - SpecVal(sSB)))
+            fv == TLCEval([k \in DOMAIN pre.gs |-> PCI(pre.gs[k], J)])
+            vals == TLCEval([ky \in live |-> FamVal(ky[1], ky[2], fv)])
+            w == [I |-> J, env |-> pv]
+            c19(d) == LET def == {vals[ky] : ky \in {x \in live : x[2] = d}} \ {1}
+                      IN IF def = {} THEN <<1, 1>> ELSE IF def = {0, 2} THEN <<2, 0>> ELSE <<CHOOSE x \in def : TRUE, CHOOSE x \in def : TRUE>>
+        IN [fam |-> [ky \in keys |-> IF ky \in live THEN TallyE(acc.fam[ky], vals[ky], IF ky[2] THEN oracleF ELSE oracleB, w) ELSE acc.fam[ky]],
+            c19 |-> [d \in BOOLEAN |-> TallyE(acc.c19[d], c19(d)[1], c19(d)[2], w)]]
+      zero == [fam |-> [ky \in keys |-> ZeroE], c19 |-> [d \in BOOLEAN |-> ZeroE]]
+      res == FoldSet(LAMBDA pv, a0 : LET pre == TLCEval(Prepared(pv)) IN FoldSet(LAMBDA Jc, a1 : Step(a1, pre, Jc, pv), a0, SUBSET core),
+                     zero, PhAssignments(r.placeholders))
+      Fin(e, what1, what2) ==
+        [n |-> e.n, unk |-> e.unk, t |-> e.t, f |-> e.f, dis |-> e.d1 + e.d2,
+         wit |-> IF e.d1 > 0 THEN [I |-> UnIndex(e.w1.I, nb), env |-> e.w1.env, anthem |-> what1, reference |-> "not " \o what2]
+                 ELSE IF e.d2 > 0 THEN [I |-> UnIndex(e.w2.I, nb), env |-> e.w2.env, anthem |-> "no problem of the direction is refuted", reference |-> what2] ELSE <<>>,
+         groups |-> 1, ident |-> 0, atoms |-> nb.n]
+      famOuts == [i \in DOMAIN fams |->
+                    (IF hasDir(i, TRUE) THEN <<Out(r, "C02.forward_refuted_iff_behavioural_difference",
+                                                   Fin(res.fam[<<i, TRUE>>], "a forward problem is refuted", "(assumptions, left admits I, right-private part determined, right rejects I)"),
+                                                   ToString(fams[i].flags))>> ELSE <<>>)
+                    \o (IF hasDir(i, FALSE) THEN <<Out(r, "C02.backward_refuted_iff_behavioural_difference",
+                                                       Fin(res.fam[<<i, FALSE>>], "a backward problem is refuted", "(assumptions, right admits I, left-private part determined, left rejects I)"),
+                                                       ToString(fams[i].flags))>> ELSE <<>>)]
+  IN FlattenSeq(famOuts)
+     \o <<Out(r, "C19.external_families_agree_forward", Fin(res.c19[TRUE], "refuted in one family", "refuted in another family"), ""),
+          Out(r, "C19.external_families_agree_backward", Fin(res.c19[FALSE], "refuted in one family", "refuted in another family"), "")>>
+EvalExternal(r) ==
+  LET fams == SelectSeq(r.families, LAMBDA fm : "problems" \in DOMAIN fm)
+  IN IF fams = <<>> THEN <<Skip(r, "C02.forward_refuted_iff_behavioural_difference", "task refused")>>
+     ELSE ExternalEval(r, fams)
+
 EvalRecord(r) ==
   CASE r.kind = "rule" -> EvalRule(r)
+    [] r.kind = "external" -> EvalExternal(r)
+    [] r.kind = "strong" -> EvalStrong(r)
     [] r.kind = "completion" -> EvalCompletion(r)
     [] r.kind = "completable" -> EvalCompletable(r)
     [] r.kind = "equiv" -> EvalEquiv(r)
